@@ -123,7 +123,7 @@ func c06(r *Report, s *Sem) {
 			if g == nil || !(containsFn(a.setterFull, g) || containsFn(a.setterLocked, g)) || len(set.Call.Args) < 2 {
 				return
 			}
-			if cs, ok := constString(stripConv(set.Call.Args[len(set.Call.Args)-1])); !ok || cs != "established" {
+			if cs, ok := stateConst(set.Call.Args[len(set.Call.Args)-1]); !ok || cs != "established" {
 				return
 			}
 			var why []string
